@@ -696,6 +696,12 @@ func (h *c07Hist) prefix() {
 	h.doPost(a3.String(), m0, 70000, 2, h.e.Height+14400*2, "{}")
 	h.doReward() // 100
 	h.doReward() // 200
+	// an expiry height that is positive but already reached asks for a one-time payment of no days at all: refused,
+	// whatever plan the creator holds; nothing of it may end up against the plan, and deleting changes nothing
+	for _, ex := range []int64{1, h.e.Height / 2, h.e.Height - 1, h.e.Height, h.e.Height + 1} {
+		h.doPost(a3.String(), h.pool[2].Root, 4000, 1, ex, "{}")
+		h.doDelete(a3.String(), hex.EncodeToString(h.pool[2].Root), h.e.Height)
+	}
 	// expiry: the files stay and keep their space; a new plan below the usage is refused
 	h.doPost(a3.String(), m1, 700_000_000, 2, 0, "{}")
 	h.advance(3, 32*24*time.Hour)
@@ -808,7 +814,7 @@ func (h *c07Hist) randomOp() {
 		case 1, 2, 3:
 			expires = e.Height + 14400*int64(1+p.Intn(40))
 		case 4:
-			expires = PickOne(p, []int64{e.Height + 14399, e.Height + 14400, e.Height + 1, 1, math.MaxInt64, 1 << 61})
+			expires = PickOne(p, []int64{e.Height + 14399, e.Height + 14400, e.Height + 1, 1, math.MaxInt64, 1 << 61, e.Height, e.Height - 1, 1 + e.Height/2})
 		}
 		note := "{}"
 		if p.Chance(1, 30) {
